@@ -414,6 +414,14 @@ func (s *stream) apply(c *Cmd) error {
 			s.rows[i] = nr
 		}
 	case "head":
+		if c.Expr != nil {
+			out, err := modelHeadExpr(c, s.rows)
+			if err != nil {
+				return err
+			}
+			s.rows = out
+			break
+		}
 		if c.N < len(s.rows) {
 			s.rows = s.rows[:c.N]
 		}
@@ -575,6 +583,11 @@ func (s *stream) apply(c *Cmd) error {
 			s.softCols[gname] = true
 		}
 	case "bin":
+		if c.Span == 0 {
+			// the span is derived from the extremes of the input by a rule of the engine (powers of ten
+			// that give at most `bins` bins); only compared across partitions / formulations
+			return abstainf("bin without a span")
+		}
 		target := c.Field
 		if c.To != "" {
 			if s.schema[c.To] {
@@ -641,6 +654,9 @@ func (s *stream) apply(c *Cmd) error {
 		}
 		s.softCols = map[string]bool{}
 	case "streamstats":
+		if c.ResetOnChange || c.ResetBefore != nil || c.ResetAfter != nil {
+			return abstainf("streamstats reset options")
+		}
 		if c.HasN && len(c.By) > 0 && c.Global != "false" {
 			return abstainf("streamstats window with by and a global window")
 		}
